@@ -3568,8 +3568,19 @@ impl SctpInner {
             }
         }
 
-        // Advance the advanced peer ack point past consecutive abandoned chunks
-        let last_sacked = self.cumulative_tsn_ack.load(Ordering::SeqCst);
+        // Advance the advanced peer ack point past consecutive abandoned chunks.
+        // The floor is the peer's cumulative ack of OUR TSNs: everything it covers
+        // has been removed from sent_queue, so it is (oldest outstanding TSN - 1).
+        // (`self.cumulative_tsn_ack` is the receive-side counter in the peer's TSN
+        // space and must not be mixed in here.)
+        let oldest_outstanding = sent_queue
+            .keys()
+            .copied()
+            .reduce(|a, b| if tsn_gt(a, b) { b } else { a });
+        let last_sacked = match oldest_outstanding {
+            Some(t) => t.wrapping_sub(1),
+            None => self.next_tsn.load(Ordering::SeqCst).wrapping_sub(1),
+        };
         let mut advanced = self.advanced_peer_ack_tsn.load(Ordering::SeqCst);
         if tsn_gt(last_sacked, advanced) {
             advanced = last_sacked;
@@ -3577,22 +3588,13 @@ impl SctpInner {
 
         let mut new_advanced = advanced;
         let mut has_abandoned = false;
-        let tsns: Vec<u32> = sent_queue.keys().cloned().collect();
-        for tsn in tsns {
-            if !tsn_gt(tsn, new_advanced) && tsn != new_advanced.wrapping_add(1) {
-                continue;
-            }
-            if tsn != new_advanced.wrapping_add(1) {
+        // Walk TSN by TSN (serial arithmetic) so the 2^32 wrap is handled.
+        while let Some(record) = sent_queue.get(&new_advanced.wrapping_add(1)) {
+            if !record.abandoned {
                 break;
             }
-            if let Some(record) = sent_queue.get(&tsn) {
-                if record.abandoned {
-                    new_advanced = tsn;
-                    has_abandoned = true;
-                } else {
-                    break;
-                }
-            }
+            new_advanced = new_advanced.wrapping_add(1);
+            has_abandoned = true;
         }
 
         if has_abandoned && tsn_gt(new_advanced, advanced) {
@@ -3632,10 +3634,6 @@ impl SctpInner {
 
     fn create_forward_tsn_chunk(&self) -> Option<Bytes> {
         let advanced = self.advanced_peer_ack_tsn.load(Ordering::SeqCst);
-        let last_sacked = self.cumulative_tsn_ack.load(Ordering::SeqCst);
-        if !tsn_gt(advanced, last_sacked) {
-            return None;
-        }
 
         let stream_ssn_pairs: Vec<(u16, u16)> = {
             let mut fwd = self.forward_tsn_streams.lock();
